@@ -3,10 +3,10 @@
 namespace Basyx.Gen.TreeCfg
 
 /-- AASd-128 check: `true` = `k.value.isdecimal()`, `false` = `k.value.isnumeric()` -/
-def aasd128Decimal : Bool := false
+def aasd128Decimal : Bool := true
 
 /-- AASd-126 check: `true` = every generic fragment key before the last one is rejected, `false` = only when the last
     key is not a generic fragment key itself -/
-def aasd126Strict : Bool := false
+def aasd126Strict : Bool := true
 
 end Basyx.Gen.TreeCfg
